@@ -4,7 +4,8 @@ import os
 import subprocess
 
 VERIF = os.path.dirname(os.path.dirname(os.path.abspath(__file__)))
-BIN = os.path.join(VERIF, '.cache', 'oracle-target', 'debug', 'oracle')
+CACHE = os.environ.get('VERIF_CACHE') or os.path.join(VERIF, '.cache')      # dev only: parallel runs against copies of the repository
+BIN = os.path.join(CACHE, 'oracle-target', 'debug', 'oracle')
 
 
 class Oracle:
